@@ -53,10 +53,10 @@ pub fn uci_talk() -> anyhow::Result<()> {
                     command_uci();
                 }
                 "ucinewgame" => {
-                    if search_is_running.load(Relaxed) {
-                        let thread =
-                            search_thread.context("There should a search thread running")?;
-                        search_is_running.store(false, Relaxed);
+                    // The timer may already have cleared the flag while the search thread is still
+                    // about to start or to answer, so stop and join whatever thread there is
+                    search_is_running.store(false, Relaxed);
+                    if let Some(thread) = search_thread {
                         thread.join().unwrap();
                         search_thread = None;
                     }
